@@ -9,6 +9,11 @@ model:  Annet.Mesh.executeFor / executeGlobals / mergeVal (lean/AnnetModel/Model
 oracle: real code only -- both ends of every device pair are compared; every permutation (a sample in
         the quick tier when there are more than 24) of the rule registration order is executed; the
         selected interface is recomputed from the handler tables; merge laws are checked on real merge().
+        glue families (harness/c15glue.py): for registries with match_short_name and neighbours sharing a short
+        name, and for several rules with different name templates (or one rule matched in both orientations)
+        hitting one peer key with disjoint/equal fields, a reference reading of the case (templates, filters,
+        handler tables) says which sessions every end has and the field-by-field union of every key: every
+        session is there and mirrored, no field is lost, no error unless a single-valued field gets two values.
 """
 import itertools
 import json
@@ -21,6 +26,10 @@ RULE = ("exec cases: 2..5 devices, 0..3 parallel links per pair (interface order
         "filters, united/separate port processors, table-driven handlers (pure in (left,right,port set)) that "
         "always assign both peer addresses (a small malformed stream drops addr/asnum or uses bad values); "
         "merge cases: 2..3 random instances of a shipped DTO class or of a harness class using every merger; "
+        "glue cases (fam glue-twins / glue-multi): 2..5 devices named <role><n>.<pod>.net, several sharing a short name, "
+        "0..3 parallel links, match_short_name, neighbours listed once or once per link, 1..4 direct/indirect rules from "
+        "generic / role specific / reversed / both-orientation template pairs, rows drawing a random part of one plan per "
+        "(pair, port group) (10% get one conflicting value); "
         "non-trivial = an exec case producing >=1 peer on >=2 devices or a merge case with >=2 set fields in "
         "common; distinct = distinct canonical case")
 TRUSTED_BASE = [
@@ -30,6 +39,9 @@ TRUSTED_BASE = [
     "value encoding: Python scalars as tagged atom strings (n, bT/bF, i<int>, s<str>, o<repr>); sets sorted; attribute and dict key order not compared",
     "fake in-memory Storage/Device/Interface of harness/props/c15.py (same behaviour as tests/annet/test_mesh/fakes.py, with a call log)",
     "reflection of _field_mergers / type hints into merger tables (harness/props/c15.py: table_of)",
+    "glue families: harness/c15glue.py -- reference reading of name templates ({n} = decimal number, {n:regex}, whole-name match), "
+    "Left/Right filters, the storage contract (neighbours, search_connections), united/separate port groups and the handler "
+    "tables grouped by peer key (kind, remote fqdn, remote addr, remote vrf); single-valued = every field but families",
 ]
 ASSUMPTIONS = [
     "name matching (PeerNameTemplate regexes, Left/Right filters, match_short_name) is a parameter: the match matrix computed by the real matchers is shipped to the model",
@@ -259,8 +271,9 @@ class FIface:
 
 
 class FDev:
-    def __init__(self, fqdn, ifaces):
+    def __init__(self, fqdn, ifaces, nbr_dup=False):
         self._fqdn = fqdn
+        self._nbr_dup = nbr_dup          # neighbours listed once per link (what the netbox adapter does)
         self.interfaces = [FIface(self, *i) for i in ifaces]
         self.calls = []
         self.storage = None
@@ -281,7 +294,7 @@ class FDev:
     def neighbours_fqdns(self):
         out = []
         for i in self.interfaces:
-            if i.neighbor_fqdn and i.neighbor_fqdn not in out:
+            if i.neighbor_fqdn and (self._nbr_dup or i.neighbor_fqdn not in out):
                 out.append(i.neighbor_fqdn)
         return out
 
@@ -313,7 +326,7 @@ class FDev:
 
 class FStorage:
     def __init__(self, devices):
-        self.devices = [FDev(d["fqdn"], d["ifaces"]) for d in devices]
+        self.devices = [FDev(d["fqdn"], d["ifaces"], bool(d.get("nbr_dup"))) for d in devices]
         for d in self.devices:
             d.storage = self
 
@@ -1137,19 +1150,30 @@ def shards(tier, seed):
             out.append(dict(kind="exec", seed=seed * 100003 + i, n=40))
         for i in range(16):
             out.append(dict(kind="merge", seed=seed * 100003 + 500 + i, n=400))
+        for i in range(16):
+            out.append(dict(kind="glue", seed=seed * 100003 + 900 + i, n=40))
     else:
         for i in range(256):
             out.append(dict(kind="exec", seed=seed * 100003 + i, n=80, allperms=True))
         for i in range(64):
             out.append(dict(kind="merge", seed=seed * 100003 + 500 + i, n=1000))
+        for i in range(64):
+            out.append(dict(kind="glue", seed=seed * 100003 + 900 + i, n=120, allperms=True))
     return out
 
 
 def gen(desc):
     rng = random.Random(desc["seed"])
-    for _ in range(desc["n"]):
+    for k in range(desc["n"]):
         if desc["kind"] == "merge":
             yield gen_merge_case(rng)
+        elif desc["kind"] == "glue":
+            from harness import c15glue
+            c = c15glue.gen_glue_case(rng, "twins" if k % 2 == 0 else "multi")
+            if desc.get("allperms"):
+                c["allperms"] = True
+            c["pseed"] = rng.randrange(1 << 30)
+            yield c
         else:
             c = gen_exec_case(rng, malformed=rng.random() < 0.1)
             if desc.get("allperms"):
@@ -1203,7 +1227,7 @@ def _restrict(case, a, b):
     devs = []
     for d in case["devices"]:
         if d["fqdn"] in (a, b):
-            devs.append({"fqdn": d["fqdn"], "ifaces": [i for i in d["ifaces"] if i[1] is None or i[1] in (a, b)]})
+            devs.append(dict(d, ifaces=[i for i in d["ifaces"] if i[1] is None or i[1] in (a, b)]))
     rules = []
     for rl in case["rules"]:
         if rl["kind"] in ("direct", "indirect"):
@@ -1568,12 +1592,140 @@ def oracle_merge(case, r):
     return out
 
 
+# ----------------------------------------------------------------------------------------------
+# glue families: the property's clauses against a reference reading of the case (harness/c15glue.py)
+# ----------------------------------------------------------------------------------------------
+
+def _is_glue(case):
+    return str(case.get("fam", "")).startswith("glue")
+
+
+def _expected_peer(s, opt_fields):
+    """what the property promises for one session (reference union `s` of harness/c15glue.expect), in dump_peer form"""
+    from harness import c15glue as G
+    loc, rem = s["local"], s["remote"]
+    opts = {}
+    for f, v in loc.items():
+        if f in opt_fields:
+            opts[f] = canon_val(to_val(from_spec(v)))
+    opts["local_as"] = {"atom": "i%d" % G.asn(loc["asnum"])}
+    return {"remote_as": G.asn(rem["asnum"]), "families": sorted(rem.get("families", {"set": []})["set"]),
+            "group_name": enc_atom(rem.get("group_name", "")), "description": enc_atom(rem.get("description", "")),
+            "import_policy": enc_atom(loc.get("import_policy", "")), "export_policy": enc_atom(loc.get("export_policy", "")),
+            "update_source": enc_atom(loc.get("update_source")), "options": opts, "laddr": enc_atom(loc["addr"]),
+            "lvrf": enc_atom(loc["vrf"]) if "vrf" in loc else None}
+
+
+def oracle_glue(case, r):
+    """(1) every session the rules define for a device is computed there, once, and nothing else;
+    (2) it carries every field some matching handler set (field-by-field union, nothing lost);
+    (3) no error unless a single-valued field gets two different values -- and then an error;
+    (4) every session computed at one end is computed at the other end with the mirrored (addr, vrf)."""
+    from harness import c15glue as G
+    out = []
+    exp = G.expect(case)
+    res = r.get("dev", {})
+    short = bool(case.get("short"))
+    optf = set(_opt_fields())
+    byname = {d["fqdn"]: d for d in case["devices"]}
+    for a, e in exp.items():
+        if e is None or a not in res:
+            continue
+        ex = res[a]["exec"]
+        if e["conflict"]:
+            if "ok" in ex:
+                out.append(dict(sig="conflict-not-raised", what="%s: rows of one peer key give two different values to %s, "
+                                "execute_for returned %d peers instead of raising" % (a, e["conflict"], len(ex["ok"]["peers"]))))
+            continue
+        if "err" in ex:
+            several = [s for s in e["sessions"] if len(s["idents"]) > 1]
+            if ex["err"] == "ValueError" and several:
+                # which way one key is reached more than once: rules written with different name templates, one rule
+                # matching the pair in both orientations, or rules with the same templates (read off the case)
+                def _tpl(s):
+                    return {(case["rules"][ri]["left"], case["rules"][ri]["right"]) for ri, _ in s["idents"]}
+                diff = [s for s in several if len(_tpl(s)) > 1]
+                both = [s for s in several if len({ri for ri, _ in s["idents"]}) < len(s["idents"])]
+                s0, how = (diff[0], "different-templates") if diff else (both[0], "both-orientations") if both else \
+                    (several[0], "same-templates")
+                out.append(dict(sig="merge-error-without-field-conflict:" + how,
+                                what="%s: execute_for raises ValueError although no single-valued field gets two values; the key "
+                                     "(%s, %s, %r) is hit by %d (rule, orientation) matches %s whose rows set equal or disjoint fields"
+                                     % (a, s0["b"], s0["addr"], s0["vrf"], len(s0["idents"]), s0["idents"])))
+            else:
+                out.append(dict(sig="exec-error-without-conflict", what="%s: execute_for raises %s on a conflict-free, complete "
+                                "handler table (%d sessions expected)" % (a, ex["err"], len(e["sessions"]))))
+            continue
+        peers = ex["ok"]["peers"]
+        used = set()
+        for s in e["sessions"]:
+            cand = [i for i, p in enumerate(peers) if p["hostname"] == s["b"] and p["addr"] == s["addr"]
+                    and p["vrf_name"] == enc_atom(s["vrf"])]
+            if not cand:
+                twins = [n for n in G.neighbours(byname[a]) if n != s["b"] and G.short_of(n) == G.short_of(s["b"])]
+                if short and s["kind"] == "direct" and twins:
+                    out.append(dict(sig="session-lost-short-name-twin",
+                                    what="%s: no session towards %s (%s) although a direct rule matches the pair and its handler "
+                                         "assigns it; %s is also a neighbour and has the same short name (match_short_name)"
+                                         % (a, s["b"], s["addr"], twins)))
+                else:
+                    out.append(dict(sig="session-missing", what="%s: no %s session towards %s (%s, vrf %r) although rule(s) %s "
+                                    "match the pair and assign it" % (a, s["kind"], s["b"], s["addr"], s["vrf"], s["idents"])))
+                continue
+            if len(cand) > 1:
+                out.append(dict(sig="session-duplicated", what="%s: %d peers for the key (%s, %s, %r)"
+                                % (a, len(cand), s["b"], s["addr"], s["vrf"])))
+                continue
+            used.add(cand[0])
+            p = peers[cand[0]]
+            want = _expected_peer(s, optf)
+            bad = sorted(k for k, v in want.items() if p.get(k) != v)
+            if bad:
+                lost = {k: (want[k], p.get(k)) for k in bad}
+                out.append(dict(sig="merge-field-lost", what="%s: session to %s (%s): the rows of %d matches %s combine field by "
+                                "field to something else than the computed peer: {field: (expected, got)} = %s"
+                                % (a, s["b"], s["addr"], len(s["idents"]), s["idents"], _jkey(lost)[:600])))
+        for i, p in enumerate(peers):
+            if i not in used and p["hostname"] in byname:
+                out.append(dict(sig="session-from-no-rule", what="%s: peer %s towards %s is not the result of any matching rule's rows"
+                                % (a, p["addr"], p["hostname"])))
+    # (4) mirroring, on the real results alone
+    for a in byname:
+        if exp.get(a) is None or a not in res or "ok" not in res[a]["exec"]:
+            continue
+        for p in res[a]["exec"]["ok"]["peers"]:
+            b = p["hostname"]
+            if b == a or b not in byname or exp.get(b) is None or "ok" not in res[b]["exec"]:
+                continue
+            if exp[a]["conflict"] or exp[b]["conflict"] or not G.key_partitions_agree(case, a, b):
+                continue
+            la = p["laddr"]
+            la = _ip(la[1:]) if isinstance(la, str) and la.startswith("s") else None
+            mirrored = [q for q in res[b]["exec"]["ok"]["peers"] if q["hostname"] == a and q["addr"] == la
+                        and isinstance(q["laddr"], str) and _ip(q["laddr"][1:]) == p["addr"] and q["vrf_name"] == p["vrf_name"]]
+            if len(mirrored) != 1:
+                out.append(dict(sig="session-not-mirrored", what="%s has a session to %s (own %s, peer %s, vrf %s); %s has %d sessions "
+                                "with the mirrored key (peers of %s towards %s: %s)"
+                                % (a, b, la, p["addr"], p["vrf_name"], b, len(mirrored), b, a,
+                                   [(q["laddr"], q["addr"]) for q in res[b]["exec"]["ok"]["peers"] if q["hostname"] == a])))
+            else:
+                q = mirrored[0]
+                las = lambda x: int(x["options"].get("local_as", {"atom": "i0"})["atom"][1:])  # noqa
+                if las(p) != q["remote_as"] or las(q) != p["remote_as"]:
+                    out.append(dict(sig="session-as-not-mirrored", what="%s<->%s (%s/%s): local_as/remote_as %s/%s vs %s/%s"
+                                    % (a, b, la, p["addr"], las(p), p["remote_as"], las(q), q["remote_as"])))
+    return out
+
+
 def oracle(case, r):
     if "err" in r and str(r.get("err", "")).startswith("Unexpected"):
         return [dict(sig="impl-crash", what="harness could not run the case: %s" % r)]
     if case["kind"] == "merge":
         return oracle_merge(case, r)
-    return oracle_mirror(case, r) + oracle_sides(case, r) + oracle_order(case, r) + oracle_iface(case, r)
+    out = oracle_mirror(case, r) + oracle_sides(case, r) + oracle_order(case, r) + oracle_iface(case, r)
+    if _is_glue(case):
+        out += oracle_glue(case, r)
+    return out
 
 
 # ----------------------------------------------------------------------------------------------
@@ -1601,6 +1753,8 @@ def stats(case, r):
             lab.append("rule:filtered")
     if case.get("short"):
         lab.append("exec:short-names")
+    if _is_glue(case):
+        lab += _glue_stats(case, r)
     for v in r.get("dev", {}).values():
         e = v["exec"]
         lab.append("dev:" + ("peers=%d" % min(len(e["ok"]["peers"]), 6) if "ok" in e else e["err"]))
@@ -1612,8 +1766,79 @@ def stats(case, r):
     return lab
 
 
+def _glue_stats(case, r):
+    from harness import c15glue as G
+    lab = ["glue:" + case["fam"]]
+    if any(d.get("nbr_dup") for d in case["devices"]):
+        lab.append("glue:neighbour-listed-once-per-link")
+    if "injected" in case:
+        lab.append("glue:conflicting-value-injected")
+    twin_hub = par = False
+    for d in case["devices"]:
+        nb = G.neighbours(d)
+        if len({G.short_of(n) for n in nb}) < len(nb):
+            twin_hub = True
+        if any(len(G.conns(case["devices"], d["fqdn"], n)) > 1 for n in nb if any(x["fqdn"] == n for x in case["devices"])):
+            par = True
+    if twin_hub:
+        lab.append("glue:device-with-neighbours-sharing-a-short-name" + ("(match_short_name)" if case.get("short") else "(fqdn matching)"))
+    if par:
+        lab.append("glue:parallel-links")
+    exp = G.expect(case)
+    if any(e is None for e in exp.values()):
+        lab.append("glue:device-outside-reference-domain")
+    nid = 0
+    both = difft = False
+    for a, e in exp.items():
+        if e is None:
+            continue
+        lab.append("glue:expect=" + ("conflict" if e["conflict"] else "sessions=%d" % min(len(e["sessions"]), 6)))
+        for s in e["sessions"]:
+            nid = max(nid, len(s["idents"]))
+            rules_hit = [ri for ri, _ in s["idents"]]
+            both = both or len(set(rules_hit)) < len(rules_hit)
+            if len({(case["rules"][ri]["left"], case["rules"][ri]["right"]) for ri in rules_hit}) > 1:
+                difft = True
+    lab.append("glue:max-matches-per-key=%d" % nid)
+    if difft:
+        lab.append("glue:key-hit-through-different-templates")
+    if both:
+        lab.append("glue:key-hit-in-both-orientations-of-one-rule")
+    return lab
+
+
 def _without(lst, i):
     return lst[:i] + lst[i + 1:]
+
+
+def _drop_link_candidates(case):
+    """remove one physical link: both interface entries and the port pair in the handler rows' keys"""
+    for di, d in enumerate(case["devices"]):
+        for f in d["ifaces"]:
+            if f[1] is None or d["fqdn"] > f[1]:
+                continue
+            a, pa, b, pb = d["fqdn"], f[0], f[1], f[2]
+            devs = []
+            for x in case["devices"]:
+                if x["fqdn"] == a:
+                    devs.append(dict(x, ifaces=[g for g in x["ifaces"] if not (g[0] == pa and g[1] == b)]))
+                elif x["fqdn"] == b:
+                    devs.append(dict(x, ifaces=[g for g in x["ifaces"] if not (g[0] == pb and g[1] == a)]))
+                else:
+                    devs.append(x)
+            rules = []
+            for rl in case["rules"]:
+                h = []
+                for e in rl.get("h", []):
+                    if e.get("ports") and {e.get("l"), e.get("r")} == {a, b}:
+                        gone = [pa, pb] if e["l"] == a else [pb, pa]
+                        ports = [p for p in e["ports"] if p != gone]
+                        if not ports:
+                            continue
+                        e = dict(e, ports=ports)
+                    h.append(e)
+                rules.append(dict(rl, h=h))
+            yield dict(case, devices=devs, rules=rules)
 
 
 def shrink_candidates(case):
@@ -1627,10 +1852,13 @@ def shrink_candidates(case):
     for i in range(len(case["rules"])):
         if len(case["rules"]) > 1:
             yield dict(case, rules=_without(case["rules"], i))
+    if _is_glue(case):
+        if any(d.get("nbr_dup") for d in case["devices"]):
+            yield dict(case, devices=[{k: v for k, v in d.items() if k != "nbr_dup"} for d in case["devices"]])
     for i, d in enumerate(case["devices"]):
         if len(case["devices"]) > 2:
             gone = d["fqdn"]
-            devs = [{"fqdn": x["fqdn"], "ifaces": [f for f in x["ifaces"] if f[1] != gone]} for x in _without(case["devices"], i)]
+            devs = [dict(x, ifaces=[f for f in x["ifaces"] if f[1] != gone]) for x in _without(case["devices"], i)]
             rules = []
             for rl in case["rules"]:
                 h = [e for e in rl["h"] if gone not in (e.get("l"), e.get("r"), e.get("dev"))]
@@ -1662,6 +1890,8 @@ def shrink_candidates(case):
                     rules = list(case["rules"])
                     rules[ri] = dict(rl, h=rl["h"][:ei] + [e2] + rl["h"][ei + 1:])
                     yield dict(case, rules=rules)
+    if _is_glue(case):
+        yield from _drop_link_candidates(case)
     for di, d in enumerate(case["devices"]):
         for fi, f in enumerate(d["ifaces"]):
             if f[1] is None:
